@@ -161,7 +161,7 @@ pub fn generate(family: &str, seed: u64, tier: &str) -> Vec<String> {
         // C01 / C02 / C19: large randomized responses around the 8 KiB / 64 KiB internal sizes
         "x_large" | "x_large_fault" => {
             let faulty = family == "x_large_fault";
-            let n = if thorough { 4000 } else { 300 };
+            let n = if thorough { 30000 } else { 300 };
             let mut r = Rng::new(seed ^ if faulty { 0xFA17 } else { 0 });
             let interesting = [
                 1usize, 2, 7, 100, 4095, 8191, 8192, 8193, 16384, 65535, 65536, 65537, 70000, 131071, 131072, 131073, 200_000,
